@@ -322,3 +322,34 @@ MUTANTS += [
     {"id": 'C20-benign-gray-level-if-chain', "prop": "C20", "benign": True, "edits": [('src/encoder.rs', '            let index = match nearest(luma, &[0.0, 0.33, 0.66, 1.0]) {\n                0 => 30,\n                1 => 90,\n                2 => 37,\n                _ => 97,\n            };\n', '            let level = nearest(luma, &[0.0, 0.33, 0.66, 1.0]);\n            let index = if level == 0 {\n                30\n            } else if level == 1 {\n                90\n            } else if level == 2 {\n                37\n            } else {\n                97\n            };\n')]},
     {"id": 'C20-benign-truecolor-enumerate-loop', "prop": "C20", "benign": True, "edits": [('src/encoder.rs', '            for c in [r, g, b] {\n                write!(chunks, "{}", c)?;\n                chunks.mark();\n            }\n', '            for (position, c) in [r, g, b].iter().enumerate() {\n                debug_assert!(position < 3);\n                write!(chunks, "{}", *c)?;\n                chunks.mark();\n            }\n')]},
 ]
+
+# ---- 256-colour branch as a `match` on range patterns whose bounds are named constants (`0..CUBE_OFFSET`, `GREYS_OFFSET..=255`),
+# ---- cube decomposition by / and %, number_decode as try_fold with usize::from; and the same shape with a wrong constant
+_PAL_OLD = '            let mut index = number_decode(cmds.next()?)?;\n            if index < 16 {\n                Some(COLORS[index])\n            } else if index < 232 {\n                index -= 16;\n                let ri = index / 36;\n                index -= ri * 36;\n                let gi = index / 6;\n                index -= gi * 6;\n                let bi = index;\n                Some(RGBA::new(CUBE[ri], CUBE[gi], CUBE[bi], 255))\n            } else if index < 256 {\n                let v = GREYS[index - 232];\n                Some(RGBA::new(v, v, v, 255))\n            } else {\n                None\n            }\n'
+_PAL_NAMED = '            match number_decode(cmds.next()?)? {\n                index @ 0..CUBE_OFFSET => Some(COLORS[index]),\n                index @ CUBE_OFFSET..GREYS_OFFSET => {\n                    let index = index - CUBE_OFFSET;\n                    let (ri, gi, bi) = (index / 36, index / 6 % 6, index % 6);\n                    Some(RGBA::new(CUBE[ri], CUBE[gi], CUBE[bi], 255))\n                }\n                index @ GREYS_OFFSET..=255 => {\n                    let v = GREYS[index - GREYS_OFFSET];\n                    Some(RGBA::new(v, v, v, 255))\n                }\n                _ => None,\n            }\n'
+_PAL_HDR = "fn sgr_color<'a>(mut cmds: impl Iterator<Item = &'a [u8]>) -> Option<RGBA> {\n"
+_ND_OLD = "    let mut result = 0usize;\n    for b in data.iter() {\n        match b {\n            b'0'..=b'9' => {\n                // numbers that do not fit are reported as unrecognized\n                result = result.checked_mul(10)?.checked_add((b - b'0') as usize)?;\n            }\n            _ => return None,\n        }\n    }\n    Some(result)\n"
+_ND_TRY_FOLD = "    data.iter().try_fold(0usize, |result, b| match b {\n        b'0'..=b'9' => result.checked_mul(10)?.checked_add(usize::from(b - b'0')),\n        _ => None,\n    })\n"
+MUTANTS += [
+    {"id": "C20-benign-palette-named-range-bounds", "prop": "C20", "benign": True,
+     "edits": [(D, _PAL_OLD, _PAL_NAMED), (D, _PAL_HDR, "const CUBE_OFFSET: usize = 16;\nconst GREYS_OFFSET: usize = 232;\n\n" + _PAL_HDR), (D, _ND_OLD, _ND_TRY_FOLD)]},
+    {"id": "C20-palette-named-range-bound-wrong", "prop": "C20", "expect": "INDEX-LAYOUT/decoder::sgr_color/inverse-layout",
+     "edits": [(D, _PAL_OLD, _PAL_NAMED), (D, _PAL_HDR, "const CUBE_OFFSET: usize = 16;\nconst GREYS_OFFSET: usize = 231;\n\n" + _PAL_HDR)]},
+    {"id": "C20-palette-cube-green-not-reduced", "prop": "C20", "expect": "INDEX-LAYOUT/decoder::sgr_color/inverse-layout",
+     "edits": [(D, _PAL_OLD, _PAL_NAMED.replace("index / 6 % 6", "index % 36 / 5")), (D, _PAL_HDR, "const CUBE_OFFSET: usize = 16;\nconst GREYS_OFFSET: usize = 232;\n\n" + _PAL_HDR)]},
+]
+
+# ---- the 256-colour branch in further equivalent shapes: extracted helper with early returns, `(16..232).contains`, `[..].map(|i| CUBE[i])`,
+# ---- `GREYS.get(index.checked_sub(232)?)`; index narrowed by u8::try_from and matched with `232..=u8::MAX`; guarded arms with shared quotient
+_PAL_TAIL = "            }\n        }\n"
+_FACE_DOC = "/// Apply SGR commands to the provided Face\n"
+MUTANTS += [
+    {"id": "C20-benign-palette-helper-contains-get", "prop": "C20", "benign": True,
+     "edits": [(D, _PAL_OLD + "        }\n", '            palette_color(number_decode(cmds.next()?)?)\n        }\n'), (D, _FACE_DOC, 'fn palette_color(index: usize) -> Option<RGBA> {\n    if index < COLORS.len() {\n        return Some(COLORS[index]);\n    }\n    if (16..232).contains(&index) {\n        let cube = index - 16;\n        let levels = [cube / 36, cube / 6 % 6, cube % 6].map(|i| CUBE[i]);\n        return Some(RGBA::new(levels[0], levels[1], levels[2], 255));\n    }\n    let v = *GREYS.get(index.checked_sub(232)?)?;\n    Some(RGBA::new(v, v, v, 255))\n}\n' + "\n" + _FACE_DOC)]},
+    {"id": "C20-benign-palette-u8-match", "prop": "C20", "benign": True,
+     "edits": [(D, _PAL_OLD + "        }\n", '            let index = u8::try_from(number_decode(cmds.next()?)?).ok()?;\n            Some(match index {\n                0..=15 => COLORS[usize::from(index)],\n                16..=231 => {\n                    let cube = usize::from(index - 16);\n                    RGBA::new(CUBE[cube / 36], CUBE[cube / 6 % 6], CUBE[cube % 6], 255)\n                }\n                232..=u8::MAX => {\n                    let v = GREYS[usize::from(index - 232)];\n                    RGBA::new(v, v, v, 255)\n                }\n            })\n        }\n')]},
+    {"id": "C20-benign-palette-guarded-arms", "prop": "C20", "benign": True,
+     "edits": [(D, _PAL_OLD + "        }\n", '            let index = number_decode(cmds.next()?)?;\n            match index {\n                i if i < 16 => Some(COLORS[i]),\n                i if i < 232 => {\n                    let (hi, bi) = ((i - 16) / 6, (i - 16) % 6);\n                    Some(RGBA::new(CUBE[hi / 6], CUBE[hi % 6], CUBE[bi], 255))\n                }\n                i if i <= 0xff => {\n                    let v = GREYS[i - 232];\n                    Some(RGBA::new(v, v, v, 255))\n                }\n                _ => None,\n            }\n        }\n')]},
+    {"id": "C20-benign-palette-get-or-else", "prop": "C20", "benign": True,
+     "edits": [(D, _PAL_OLD + "        }\n", '            let index = number_decode(cmds.next()?)?;\n            COLORS.get(index).copied().or_else(|| {\n                let rest = index - COLORS.len();\n                if rest < 216 {\n                    Some(RGBA::new(CUBE[rest / 36], CUBE[(rest % 36) / 6], CUBE[rest % 6], 255))\n                } else {\n                    GREYS.get(rest - 216).map(|&v| RGBA::new(v, v, v, 255))\n                }\n            })\n        }\n')]},
+]
